@@ -118,6 +118,8 @@ typedef struct sSymbolEntry {
     TTree      Tree;
     Boolean    Defined, Used, Changeable;
     TempResult SymWert;
+    Boolean    ValueWasModified; /* value patched after definition (label behind padding) */
+    LargeInt   UnmodifiedValue;  /* ...and the value it was originally entered with */
     PCrossRef  RefList;
     Byte       FileNum;
     LongInt    LineNum;
@@ -2128,8 +2130,12 @@ static Boolean SymbolAdder(PTree* PDest, PTree Neu, void* pData) {
                     && (NewEntry->SymWert.Contents.Float
                         != (*Node)->SymWert.Contents.Float))
                 || ((NewEntry->SymWert.Typ == TempInt)
-                    && (NewEntry->SymWert.Contents.Int
-                        != (*Node)->SymWert.Contents.Int))) {
+                    && (NewEntry->SymWert.Contents.Int != (*Node)->SymWert.Contents.Int)
+                    /* a label that got moved behind a padding byte in the previous
+                       pass is entered with its pre-padding value again: no change */
+                    && !((*Node)->ValueWasModified
+                         && (NewEntry->SymWert.Contents.Int
+                             == (*Node)->UnmodifiedValue)))) {
                 if ((!Repass) && (JmpErrors > 0)) {
                     if (ThrowErrors) {
                         ErrorCount -= JmpErrors;
@@ -2279,6 +2285,10 @@ void PrintSymTree(char* Name) {
  * ------------------------------------------------------------------------ */
 
 void ChangeSymbol(PSymbolEntry pEntry, LargeInt Value) {
+    if (pEntry->SymWert.Typ == TempInt) {
+        pEntry->ValueWasModified = True;
+        pEntry->UnmodifiedValue  = pEntry->SymWert.Contents.Int;
+    }
     as_tempres_set_int(&pEntry->SymWert, Value);
 }
 
